@@ -409,10 +409,14 @@ def run(ctx: Ctx):
     for _ in range(6 if quick else 20):
         c = tuple(dy(ctx.rng.uniform(-3, 3), 10) for _ in range(3)) if ctx.rng.random() < 0.7 else None
         cpts.append((tuple(dy(ctx.rng.uniform(-4, 4), 10) for _ in range(3)), c))
-    for pt, c in cpts:
+    cpts = [(pt, c, "float64", "float64") for pt, c in cpts]
+    # integer / single-precision points with fractional, integer, list and tuple centres: the model is evaluated at the exact numbers
+    cpts += [((3, -2, 5), (0.25, 0.5, -0.75), "int64", "list"), ((1, 1, 1), (1, 0, 2), "int32", "int64"),
+             ((0.25, -1.5, 2.0), (1.5, -2.25, 0.75), "float32", "float64"), ((1, 0, 0), (0.25, 0.5, -0.75), "int64", "tuple")]
+    for pt, c, pdt, cdt in cpts:
         cc = (0.0, 0.0, 0.0) if c is None else c
-        key = f"cart:{pt}:{c}"
-        out, err = safe(lambda: np.asarray(gu.convert_cart_to_sph(np.array([pt], dtype=float), None if c is None else np.array(c, dtype=float)), dtype=float))
+        key = f"cart:{pt}:{c}" + ("" if (pdt, cdt) == ("float64", "float64") else f":{pdt}:{cdt}")
+        out, err = safe(lambda: np.asarray(gu.convert_cart_to_sph(make_array([pt], pdt, "C"), make_center(c, cdt)), dtype=float))
         ctx.case(("cart", pt, c))
         if out is None or out.shape != (1, 3) or not np.all(np.isfinite(out)):
             pend.add(0, "corr_cart_to_sph", key, err or str(out), f"convert_cart_to_sph({pt}, center={c}) gave {err or out}", {"kind": "cart", "point": pt, "center": c})
@@ -520,6 +524,7 @@ def run(ctx: Ctx):
     mark("oracle_validation")
     search(ctx, gu, mp, pend, angles)
     high_degree(ctx, gu, mp, pend)
+    dtype_layout(ctx, gu, mp, pend)
     outside_principal_range(ctx, gu, mp, pend)
     mark("search")
 
@@ -847,6 +852,153 @@ def high_degree(ctx: Ctx, gu, mp, pend: Pending):
     ctx.count("high_degree_reference_rows", len(sel) * len(pts) * 2)
 
 
+# ====================================================================== dtype / memory-layout variety of the inputs
+def make_array(values, dtype, layout):
+    """the same numbers as an ndarray of the given dtype and memory layout (values are exactly representable in dtype)"""
+    a = np.array(values, dtype=dtype)
+    if layout == "F":
+        a = np.asfortranarray(a)
+    elif layout == "strided":        # non-contiguous view: every second row/element of a larger buffer
+        big = np.zeros((2 * a.shape[0],) + a.shape[1:], dtype=dtype)
+        big[::2] = a
+        a = big[::2]
+    elif layout == "readonly":
+        a.setflags(write=False)
+    return a
+
+
+def make_center(values, ctype):
+    if values is None:
+        return None
+    if ctype == "list":
+        return list(values)
+    if ctype == "tuple":
+        return tuple(values)
+    return np.array(values, dtype=ctype)
+
+
+def dtype_layout(ctx: Ctx, gu, mp, pend: Pending):
+    """The routines are called with integer / float32 / longdouble / non-contiguous / read-only arrays (and list, tuple, integer and
+    float32 centres); the expected values are those of the exact real numbers the arrays hold."""
+    rng = ctx.rng
+    # ---- convert_cart_to_sph
+    ipts = [[1, 0, 0], [0, 2, 0], [1, 1, 1], [0, 0, 0], [3, -2, 5], [-4, 1, -2], [2, 2, 0], [0, 0, -3]]
+    fpts = [[0.25, -1.5, 2.0], [1.0, 0.0, 0.0], [-0.75, 0.5, -0.125], [3.5, 2.25, -1.0], [0.25, 0.5, -0.75]]
+    pvars = [(ipts, "int64", "C"), (ipts, "int32", "C"), ([[abs(v) for v in q] for q in ipts], "uint8", "C"), (ipts, "int64", "strided"),
+             (fpts, "float32", "C"), (fpts, "float64", "F"), (fpts, "float64", "strided"), (fpts, "float64", "readonly"), (fpts, "longdouble", "C"),
+             (ipts, "int16", "readonly")]
+    cvars = [(None, None), ([0.25, 0.5, -0.75], "list"), ([0.25, 0.5, -0.75], "tuple"), ([1, 0, 2], "int64"), ([1, 0, 2], "list"),
+             ([0.25, 0.5, -0.75], "float64"), ([0.5, -1.25, 0.125], "float32"), ([1.5, -2.25, 0.75], "float64")]
+    for values, dt, lay in pvars:
+        for cv, ct in cvars:
+            P = make_array(values, dt, lay)
+            before = np.array(P, copy=True)
+            c = make_center(cv, ct)
+            key = f"cart[{dt},{lay}]:center[{ct}]={cv}"
+            rp = {"kind": "cartv", "points": values, "pdtype": dt, "layout": lay, "center": cv, "ctype": ct}
+            ctx.case(("cartv", dt, lay, ct, str(cv)))
+            ctx.count("cart_dtype_layout")
+            try:
+                out = np.asarray(gu.convert_cart_to_sph(P, c))
+                single = out.dtype == np.float32
+                out = np.asarray(out, dtype=float)
+            except Exception as e:  # noqa: BLE001
+                pend.add(0, "search_roundtrip", key, f"{type(e).__name__}", f"convert_cart_to_sph({dt} points [{lay}], center={cv} as {ct}) raised {type(e).__name__}: {str(e)[:100]}", rp)
+                continue
+            if not np.array_equal(np.asarray(P), before):
+                pend.add(0, "search_roundtrip", key + ":mutated", "input modified", f"convert_cart_to_sph modified its {dt} input array", rp)
+            tol = 1e-5 if single else TOL
+            for k, pt in enumerate(values):
+                exp = cart_expected(pt, cv)
+                got = [float(v) for v in out[k]] if out.shape == (len(values), 3) else [float("nan")] * 3
+                if not all(close(a, b, tol) for a, b in zip(got, exp)):
+                    pend.add(0, "search_roundtrip", f"{key}:point={pt}", got,
+                             f"convert_cart_to_sph(points of dtype {dt} [{lay}] containing {pt}, center={cv} given as {ct}) = {got}; the exact point minus the exact centre has (r,theta,phi) = {exp}",
+                             {**rp, "index": k, "expected": exp})
+                    break
+    # ---- harmonics and their derivatives
+    L = 6
+    ith, iph = [0, -2, 7, 1, 2, -11], [0, 1, 2, 3, 1, 2]
+    fth, fph = [0.3125, -2.5, 7.90625, 1.0, 2.0, 0.0], [0.0, 1.125, 2.0, 0.5, 3.0, 1.5]
+    hvars = [(ith, iph, "int64", "C"), (ith, iph, "int32", "strided"), (fth, fph, "float32", "C"), (fth, fph, "float64", "strided"),
+             (fth, fph, "float64", "readonly"), (ith, iph, "int16", "readonly")]
+    refs = {}
+    for tv, pv, dt, lay in hvars:
+        kref = (tuple(tv), tuple(pv))
+        if kref not in refs:
+            Y = np.zeros(((L + 1) ** 2, len(tv)))
+            D0, D1 = np.zeros_like(Y), np.zeros_like(Y)
+            for j, (t, p) in enumerate(zip(tv, pv)):
+                tm, pm = mp.mpf(t), mp.mpf(p)
+                pole = abs(math.tan(p)) < 1e-10
+                for l in range(L + 1):
+                    for am in range(l + 1):
+                        f, df = o_F(mp, l, am, pm), o_dF(mp, l, am, pm)
+                        for m in ([0] if am == 0 else [am, -am]):
+                            Y[row(l, m), j] = float(f * o_az(mp, m, tm))
+                            D0[row(l, m), j] = float(-m * f * o_az(mp, -m, tm))
+                            D1[row(l, m), j] = 0.0 if pole else float(df * o_az(mp, m, tm))
+            refs[kref] = (Y, D0, D1)
+        Y, D0, D1 = refs[kref]
+        loose = dt in ("float32", "int16")     # NumPy/SciPy ufuncs compute these in single precision: single-precision accuracy is what the inputs carry
+        for nm, fn, obl_, exp, tol in (
+                ("generate_real_spherical_harmonics", gu.generate_real_spherical_harmonics, "search_values_recursion", Y, 1e-5 if loose else TOL),
+                ("generate_real_spherical_harmonics_scipy", gu.generate_real_spherical_harmonics_scipy, "search_values_scipy", Y, 1e-4 if loose else TOL),
+                ("generate_derivative_real_spherical_harmonics", gu.generate_derivative_real_spherical_harmonics, "search_derivative", np.stack([D0, D1]), 1e-3 if loose else 1e-8)):
+            T_, P_ = make_array(tv, dt, lay), make_array(pv, dt, lay)
+            bt, bp = np.array(T_, copy=True), np.array(P_, copy=True)
+            key = f"{nm}({L})[{dt},{lay}]:theta={tv}:phi={pv}"
+            rp = {"kind": "sphv", "fn": nm, "l_max": L, "theta": tv, "phi": pv, "dtype": dt, "layout": lay}
+            ctx.case(("sphv", nm, dt, lay))
+            ctx.count("harmonics_dtype_layout")
+            try:
+                out = np.asarray(fn(L, T_, P_), dtype=float)
+            except Exception as e:  # noqa: BLE001
+                pend.add(0, obl_, key, f"{type(e).__name__}", f"{nm}({L}, theta, phi) with {dt} arrays [{lay}] raised {type(e).__name__}: {str(e)[:100]}", rp)
+                continue
+            if not (np.array_equal(np.asarray(T_), bt) and np.array_equal(np.asarray(P_), bp)):
+                pend.add(0, obl_, key + ":mutated", "input modified", f"{nm} modified its {dt} input arrays", rp)
+            if out.shape != exp.shape:
+                pend.add(0, obl_, key, str(out.shape), f"{nm}({L}, ...) with {dt} arrays [{lay}] has shape {out.shape}, expected {exp.shape}", rp)
+                continue
+            d = np.abs(out - exp) - tol * (1 + np.abs(exp))
+            d[~np.isfinite(d)] = 1.0
+            if np.any(d > 0):
+                idx = tuple(int(v) for v in np.argwhere(d > 0)[0])
+                l, m = lm_of(idx[-2])
+                pend.add(l, obl_, f"{key}:{idx}", float(out[idx]),
+                         f"{nm}({L}, theta={tv}, phi={pv} as {dt} arrays [{lay}]){list(idx)} = {float(out[idx])!r}, (l,m)=({l},{m}); for the exact angles {tv[idx[-1]]}, {pv[idx[-1]]} the value is {float(exp[idx])!r}",
+                         {**rp, "index": list(idx), "expected": float(exp[idx])})
+    # ---- solid harmonics
+    Ls = 4
+    isph = [[0, 1, 1], [2, -2, 3], [1, 7, 0], [3, 0, 2]]
+    fsph = [[0.0, 0.5, 1.0], [2.5, -2.5, 0.5], [0.3125, 7.90625, 1.5], [1.0, 1.0, 3.0]]
+    for values, dt, lay in [(isph, "int64", "C"), (isph, "int32", "F"), (fsph, "float32", "C"), (fsph, "float64", "F"), (fsph, "float64", "strided"), (fsph, "float64", "readonly")]:
+        S_ = make_array(values, dt, lay)
+        key = f"solid_harmonics({Ls})[{dt},{lay}]:{values}"
+        rp = {"kind": "solidv", "l_max": Ls, "pts": values, "dtype": dt, "layout": lay}
+        ctx.case(("solidv", dt, lay))
+        try:
+            out = np.asarray(gu.solid_harmonics(Ls, S_), dtype=float)
+        except Exception as e:  # noqa: BLE001
+            pend.add(0, "search_solid", key, f"{type(e).__name__}", f"solid_harmonics({Ls}, {dt} array [{lay}]) raised {type(e).__name__}: {str(e)[:100]}", rp)
+            continue
+        tol = 1e-4 if dt == "float32" else TOL
+        bad = None
+        for j, (r, t, p) in enumerate(values):
+            for l in range(Ls + 1):
+                for m in m_order(l):
+                    yo = float(mp.sqrt(4 * mp.pi / (2 * l + 1)) * mp.mpf(r) ** l * o_Y(mp, l, m, mp.mpf(t), mp.mpf(p)))
+                    got = float(out[row(l, m), j]) if out.shape == ((Ls + 1) ** 2, len(values)) else float("nan")
+                    if bad is None and not close(got, yo, tol):
+                        bad = (l, m, j, got, yo)
+        if bad:
+            l, m, j, got, yo = bad
+            pend.add(l, "search_solid", f"{key}:{l}:{m}:{j}", got,
+                     f"solid_harmonics({Ls}, {dt} array [{lay}]) (l,m)=({l},{m}) at (r,theta,phi)={values[j]} is {got!r}; sqrt(4pi/(2l+1)) r^l Y_lm = {yo!r}",
+                     {**rp, "l": l, "m": m, "index": j, "expected": yo})
+
+
 def outside_principal_range(ctx: Ctx, gu, mp, pend):
     """Polar angles outside [0, pi] ("If this angle is outside of bounds, then periodicity is used" in both docstrings):
     the two implementations and the derivative routine are probed at fixed inputs; each disagreement is reported with a stable key
@@ -932,6 +1084,24 @@ def replay(rp):
         s = float(np.dot(ya, yb))
         print(f"sum_m Y_lm(a) Y_lm(b) = {s!r}; (2l+1)/(4 pi) P_l(cos gamma) = {rp['expected']!r}")
         return 0 if abs(s - rp["expected"]) <= 1e-9 * (2 * l + 1) else 1
+    if kind == "cartv":
+        P, c = make_array(rp["points"], rp["pdtype"], rp["layout"]), make_center(rp["center"], rp["ctype"])
+        out = np.asarray(gu.convert_cart_to_sph(P, c), dtype=float)
+        k = rp.get("index", 0)
+        exp = cart_expected(rp["points"][k], rp["center"])
+        print(f"convert_cart_to_sph({rp['pdtype']} points [{rp['layout']}], center={rp['center']} as {rp['ctype']})[{k}] = {out[k].tolist()}; expected {exp}")
+        return 0 if all(close(a, b, 1e-5) for a, b in zip(out[k], exp)) and (P.dtype == np.float32 or all(close(a, b) for a, b in zip(out[k], exp))) else 1
+    if kind == "sphv":
+        fn = getattr(gu, rp["fn"])
+        out = np.asarray(fn(rp["l_max"], make_array(rp["theta"], rp["dtype"], rp["layout"]), make_array(rp["phi"], rp["dtype"], rp["layout"])), dtype=float)
+        idx = tuple(rp.get("index", [0, 0]))
+        print(f"{rp['fn']}(..., {rp['dtype']} arrays [{rp['layout']}]){list(idx)} = {float(out[idx])!r}; expected {rp.get('expected')!r}")
+        return 0 if close(out[idx], rp.get("expected", out[idx]), 1e-3 if rp["dtype"] in ("float32", "int16") else 1e-8) else 1
+    if kind == "solidv":
+        out = np.asarray(gu.solid_harmonics(rp["l_max"], make_array(rp["pts"], rp["dtype"], rp["layout"])), dtype=float)
+        v = float(out[row(rp["l"], rp["m"]), rp["index"]])
+        print(f"solid_harmonics({rp['l_max']}, {rp['dtype']} array [{rp['layout']}])[{row(rp['l'], rp['m'])}, {rp['index']}] = {v!r}; expected {rp['expected']!r}")
+        return 0 if close(v, rp["expected"], 1e-4 if rp["dtype"] == "float32" else TOL) else 1
     if kind == "oracle":
         from scipy.special import sph_harm_y
 
